@@ -28,25 +28,41 @@ Proof. destruct a, b; simpl; intros H; try discriminate; auto. apply Nat.eqb_eq 
 Lemma optn_eqb_refl a : optn_eqb a a = true.
 Proof. destruct a; simpl; auto. apply Nat.eqb_refl. Qed.
 
+Lemma blk_eqb_eq a b : blk_eqb a b = true -> a = b.
+Proof.
+  destruct a, b; unfold blk_eqb; simpl; intros H. apply andb_true_iff in H as [H1 H2].
+  apply Nat.eqb_eq in H1. apply eqb_prop in H2. congruence.
+Qed.
+Lemma blk_eqb_refl a : blk_eqb a a = true.
+Proof. destruct a; unfold blk_eqb; simpl. now rewrite Nat.eqb_refl, eqb_reflx. Qed.
+Lemma aux_eqb_eq a b : aux_eqb a b = true -> a = b.
+Proof.
+  destruct a, b; unfold aux_eqb; simpl; intros H. apply andb_true_iff in H as [H1 H2].
+  apply eqb_prop in H1. apply (list_eqb_eq _ blk_eqb_eq) in H2. congruence.
+Qed.
+Lemma aux_eqb_refl a : aux_eqb a a = true.
+Proof. destruct a; unfold aux_eqb; simpl. now rewrite eqb_reflx, (list_eqb_refl _ blk_eqb_refl). Qed.
+
 Lemma aframe_eqb_eq a b : aframe_eqb a b = true -> a = b.
 Proof.
-  destruct a, b; unfold aframe_eqb; simpl; intros H.
-  repeat (apply andb_true_iff in H as [H ?]).
-  apply optn_eqb_eq in H. apply optn_eqb_eq in H3. apply eqb_prop in H2. apply Nat.eqb_eq in H1.
-  apply (list_eqb_eq _ seg_eqb_eq) in H0. congruence.
+  destruct a as [c1 p1 n1 x1 g1], b as [c2 p2 n2 x2 g2]; unfold aframe_eqb; intros H.
+  apply andb_true_iff in H as [H H5]. apply andb_true_iff in H as [H H4].
+  apply andb_true_iff in H as [H H3]. apply andb_true_iff in H as [H1 H2].
+  apply optn_eqb_eq in H1. apply optn_eqb_eq in H2. apply eqb_prop in H3. apply aux_eqb_eq in H4.
+  apply (list_eqb_eq _ seg_eqb_eq) in H5. simpl in *. congruence.
 Qed.
 Lemma aframe_eqb_refl a : aframe_eqb a a = true.
 Proof.
-  destruct a; unfold aframe_eqb; simpl.
-  now rewrite !optn_eqb_refl, eqb_reflx, Nat.eqb_refl, (list_eqb_refl _ seg_eqb_refl).
+  destruct a as [c p n [nu bl] g]; unfold aframe_eqb, aux_eqb; simpl.
+  now rewrite !optn_eqb_refl, !eqb_reflx, (list_eqb_refl _ blk_eqb_refl), (list_eqb_refl _ seg_eqb_refl).
 Qed.
 
 Lemma astate_eqb_eq a b : astate_eqb a b = true -> a = b.
 Proof.
-  destruct a, b; unfold astate_eqb; simpl; intros H.
-  repeat (apply andb_true_iff in H as [H ?]).
-  apply Nat.eqb_eq in H. apply (list_eqb_eq _ seg_eqb_eq) in H1. apply (list_eqb_eq _ aframe_eqb_eq) in H0.
-  congruence.
+  destruct a as [x1 g1 t1], b as [x2 g2 t2]; unfold astate_eqb; intros H.
+  apply andb_true_iff in H as [H H3]. apply andb_true_iff in H as [H1 H2].
+  apply aux_eqb_eq in H1. apply (list_eqb_eq _ seg_eqb_eq) in H2. apply (list_eqb_eq _ aframe_eqb_eq) in H3.
+  simpl in *. congruence.
 Qed.
 
 Lemma amem_In s l : amem s l = true -> In s l.
@@ -62,7 +78,7 @@ Variable md : mode.
 Variable m : amap.
 Hypothesis Hcheck : check code md m = true.
 
-Definition abs (st : cstate) : astate := mkA (loc st) (segs st) (map base (frames st)).
+Definition abs (st : cstate) : astate := mkA (cx st) (segs st) (map base (frames st)).
 
 Definition ret_ok1 (f : cframe) (r : list cframe) : Prop :=
   match c_ret f with
@@ -191,7 +207,7 @@ Proof.
   - (* program end *)
     apply final_ok_state in Hc as [Hmd Hs].
     unfold abs in Hs. injection Hs as H1 H2 H3.
-    destruct (frames st); try discriminate. rewrite H1, H2.
+    destruct (frames st); try discriminate. rewrite H1, H2. rewrite aux_eqb_refl.
     destruct md; try congruence; simpl; exact I.
   - apply Nat.eqb_neq in Hend.
     assert (Hlt : (length code <? pc st) = false) by (apply Nat.ltb_ge; lia).
@@ -207,7 +223,7 @@ Proof.
     unfold asucc in Hs. simpl in Hs.
     destruct (is_core (nth (pc st) code SUnknown)) eqn:Hcore.
     + (* stack-only instructions *)
-      destruct (core (nth (pc st) code SUnknown) (pc st) (loc st) (segs st)) as [alts|] eqn:Hco;
+      destruct (core (nth (pc st) code SUnknown) (pc st) (cx st) (segs st)) as [alts|] eqn:Hco;
         simpl in Hs; try discriminate.
       inversion Hs; subst succs; clear Hs.
       destruct (pick ch alts) as [[[pc' l] sg]|] eqn:Hp; auto.
@@ -227,9 +243,9 @@ Proof.
         destruct (frames st) as [|f r] eqn:Hfr; simpl in Hs; try discriminate.
         destruct Hr as [Hr1 Hr].
         assert (Hgo : match (match fin_active (base f) with
-              | Some fp => Next (mkC fp (f_loc (base f)) (f_segs (base f))
+              | Some fp => Next (mkC fp (f_aux (base f)) (f_segs (base f))
                                     (mkCF (set_fin false (base f)) false (Some (S (pc st))) (c_exc f) :: r))
-              | None => Next (mkC (S (pc st)) (loc st) (segs st) r)
+              | None => Next (mkC (S (pc st)) (cx st) (segs st) r)
               end) with Next st' => Inv st' | Fault => False | _ => True end).
         { destruct (fin_active (base f)) as [fp|] eqn:Hfa; inversion Hs; subst succs; clear Hs.
           - split; simpl.
@@ -245,7 +261,7 @@ Proof.
       * (* enterFinally *)
         destruct (frames st) as [|f r] eqn:Hfr; simpl in Hs; try discriminate.
         destruct Hr as [Hr1 Hr]. inversion Hs; subst succs; clear Hs.
-        assert (Hgo : Inv (mkC (S (pc st)) (loc st) (segs st)
+        assert (Hgo : Inv (mkC (S (pc st)) (cx st) (segs st)
                              (mkCF (set_fin false (base f)) (c_catch f) (c_ret f) (c_exc f) :: r))).
         { split; simpl.
           - apply (Hall (S (pc st), _)). apply in_or_app; left. left. reflexivity.
@@ -258,12 +274,12 @@ Proof.
         { apply Hthrow; auto. intros ps Hps. unfold abs. rewrite Hfr. simpl map.
           apply handlers_app_in. exact Hps. }
         assert (Hgo : match (match c_ret f with
-                        | Some t => Next (mkC t (loc st) (segs st) r)
-                        | None => Next (mkC (S (pc st)) (loc st) (segs st) r)
+                        | Some t => Next (mkC t (cx st) (segs st) r)
+                        | None => Next (mkC (S (pc st)) (cx st) (segs st) r)
                         end) with Next st' => Inv st' | Fault => False | _ => True end).
         { unfold ret_ok1 in Hr1. destruct (c_ret f) as [t|].
           - destruct Hr1 as [p [s [Ht [Hcp [Hsin Hts]]]]]. subst t. split; simpl; auto.
-            apply (Hall (S p, mkA (loc st) (segs st) (map base r))). apply in_or_app; left. right.
+            apply (Hall (S p, mkA (cx st) (segs st) (map base r))). apply in_or_app; left. right.
             apply in_map_iff. exists p. split; auto.
             eapply ret_site_in; eauto.
           - split; simpl; auto.
@@ -274,8 +290,7 @@ Proof.
         unfold abs in Hs; simpl in Hs.
         destruct (segs st) as [|sg [|]]; try discriminate.
         destruct (frames st); simpl in Hs; try discriminate.
-        destruct (sn sg) as [|[|n]]; simpl in *; try discriminate;
-          destruct (sx sg); simpl in *; try discriminate; exact I.
+        destruct (ret_ok (cx st) sg); try discriminate. exact I.
 Qed.
 
 Lemma entry_inv : Inv (entry_state md).
@@ -327,14 +342,14 @@ Proof. intros code H. apply (check_sound code MInit _ (verify_mode_check _ _ H))
 Lemma done_end_shape code md ch st :
   md <> MFunc ->
   step code md ch st = Done ->
-  pc st = length code /\ loc st = 0 /\ segs st = a_segs (init_state md) /\ frames st = [].
+  pc st = length code /\ cx st = aux0 /\ segs st = a_segs (init_state md) /\ frames st = [].
 Proof.
   intros Hmd. unfold step. destruct (pc st =? length code) eqn:E.
   - apply Nat.eqb_eq in E. destruct md; try congruence;
       (destruct (frames st); try discriminate;
-       destruct (loc st =? 0) eqn:E2; simpl; try discriminate;
+       destruct (aux_eqb (cx st) aux0) eqn:E2; simpl; try discriminate;
        match goal with |- context [list_eqb seg_eqb (segs st) ?x] => destruct (list_eqb seg_eqb (segs st) x) eqn:E3 end;
-       try discriminate; intros _; apply Nat.eqb_eq in E2; apply (list_eqb_eq _ seg_eqb_eq) in E3; auto).
+       try discriminate; intros _; apply aux_eqb_eq in E2; apply (list_eqb_eq _ seg_eqb_eq) in E3; auto).
   - destruct (length code <? pc st); try discriminate.
     destruct (is_core (nth (pc st) code SUnknown)).
     + destruct (core _ _ _ _); try discriminate.
@@ -349,7 +364,8 @@ Qed.
 
 Lemma done_func_shape code ch st :
   step code MFunc ch st = Done ->
-  nth (pc st) code SUnknown = SRet /\ (exists n, 2 <= n /\ segs st = [mkseg n true]) /\ frames st = [].
+  nth (pc st) code SUnknown = SRet /\
+  (exists n, ret_lo (cx st) <= n <= ret_hi (cx st) /\ segs st = [mkseg n true]) /\ frames st = [].
 Proof.
   unfold step. destruct (pc st =? length code) eqn:E.
   - destruct (frames st); discriminate.
@@ -364,9 +380,10 @@ Proof.
                end; unfold do_throw; try (destruct (unwind _); discriminate); fail).
       destruct (segs st) as [|sg [|]]; try discriminate.
       destruct (frames st); try discriminate.
-      destruct (2 <=? sn sg) eqn:E1; simpl; try discriminate.
-      destruct (sx sg) eqn:E2; try discriminate.
-      intros _. apply Nat.leb_le in E1. destruct sg; simpl in *; subst. repeat split; auto. eauto.
+      destruct (ret_ok (cx st) sg) eqn:E1; try discriminate.
+      intros _. unfold ret_ok in E1. apply andb_true_iff in E1 as [E1 E3]. apply andb_true_iff in E1 as [E1 E2].
+      apply Nat.leb_le in E1. apply Nat.leb_le in E2. destruct sg; simpl in *; subst. repeat split; auto.
+      eexists; split; [split; eassumption | reflexivity].
 Qed.
 
 (* ---------- non-vacuity: concrete code the verifier accepts / rejects ---------- *)
@@ -396,9 +413,13 @@ Example f18_faults : vm_run 10 f18_code MGlobal (fun _ => CNext) (entry_state MG
 Proof. vm_compute. reflexivity. Qed.
 
 (* a function body: enter with 2 locals, compute, return exactly one value above `this` *)
-Example func_verifies : verify_func [SEnter 0 2; SNorm 0 1; SNorm 1 1; SRet] = true.
+Example func_verifies : verify_func [SEnter false 0 2; SNorm 0 1; SNorm 1 1; SRet] = true.
 Proof. vm_compute. reflexivity. Qed.
-Example func_leak_rejected : verify_func [SEnter 0 2; SNorm 0 1; SCond (-1) 1 1 1; SNorm 0 1; SRet] = false.
+Example func_leak_rejected : verify_func [SEnter false 0 2; SNorm 0 1; SNorm 0 1; SRet] = false.
+Proof. vm_compute. reflexivity. Qed.
+(* return inside a catch block whose parameter is kept on the stack: one adopted operand is allowed *)
+Example func_ret_in_catch : verify_func [SEnter false 0 0; STry 3 0; SNorm 0 0; SJump 8; SEnter true 0 0; SNorm 0 1;
+  SNorm 1 0; SLeaveTry; SNorm 0 1; SRet; SLeave 1; SLeaveTry; SNorm 0 1; SRet] = true.
 Proof. vm_compute. reflexivity. Qed.
 Example underflow_rejected : verify [SNorm 0 1; SNorm 2 1; SNorm 1 0] = false.
 Proof. vm_compute. reflexivity. Qed.
